@@ -2,6 +2,7 @@
 //! Images built by the independent reference writer (all colour/depth pairs, both interlace methods, any
 //! per-row filters, IDAT splits incl. empty chunks, 7 deflate producers, hand-built far back-references,
 //! data larger than the 32 KiB / 128 KiB internal buffers, block/IDAT boundaries aligned to scanlines).
+use crate::ops::mask_padding;
 use crate::pngbuild::*;
 use crate::readerrun::*;
 use crate::refimpl::*;
@@ -274,6 +275,54 @@ pub fn check_image(o: &mut Out, im: &Img, sched: &[usize], to_model: bool) {
         let first_diff = got_px.as_ref().and_then(|p| p.iter().zip(im.want.iter()).position(|(a, b)| a != b));
         o.violation(viol(kind, vec![("image", jstr(&im.name)), ("schedule", jstr(&format!("{:?}", sched))), ("geometry", jstr(&got_geo)), ("expected_geometry", jstr(&want_geo)),
             ("first_differing_byte", jstr(&format!("{:?}", first_diff))), ("file", jstr(&short(&im.file))), ("impl", jstr(&got_px.as_ref().map(|p| short(p)).unwrap_or_default())), ("spec", jstr(&short(&im.want)))]));
+    }
+    // the row-level API: every row handed out by next_interlaced_row is exactly the scanline of the (pass) image - its length is the line size
+    // of that pass, its bytes the pixels the specification's reconstruction puts there (padding bits of the last byte not compared)
+    if got_px.is_some() && bad.is_none() && (s.w as u64 * s.h as u64) <= (1 << 20) {
+        let bpp = samples(s.color) * s.depth as usize;
+        let r = guarded(|| -> Result<Vec<(Option<String>, Vec<u8>)>, String> {
+            let mut rd = open_decoder(PieceReader::new(im.file.clone(), sched), Opts::default(), 0, None).read_info().map_err(|e| res_err(&e))?;
+            let mut rows = vec![];
+            while let Some(row) = rd.next_interlaced_row().map_err(|e| res_err(&e))? {
+                let a7 = match row.interlace() { png::InterlaceInfo::Adam7(a) => Some(format!("{:?}", a)), _ => None };
+                rows.push((a7, row.data().to_vec()));
+            }
+            Ok(rows)
+        });
+        o.direct_checks += 1;
+        let get_px = |x: usize, y: usize| -> Vec<bool> { (0..bpp).map(|b| { let bit = x * bpp + b; (im.want[y * rb + bit / 8] >> (7 - bit % 8)) & 1 == 1 }).collect() };
+        let pack = |bits: &[bool]| -> Vec<u8> { let mut v = vec![0u8; (bits.len() + 7) / 8]; for (i, b) in bits.iter().enumerate() { if *b { v[i / 8] |= 0x80 >> (i % 8); } } v };
+        let mut why: Option<String> = None;
+        match &r {
+            Err(m) => why = Some(format!("PANIC {}", m)),
+            Ok(Err(e)) => why = Some(format!("row-level decode failed: {}", e)),
+            Ok(Ok(rows)) => {
+                let expected: Vec<(Option<(String, u32)>, Vec<u8>)> = if s.interlaced {
+                    let (x0, y0, dx, dy) = ([0usize, 4, 0, 2, 0, 1, 0], [0usize, 0, 4, 0, 2, 0, 1], [8usize, 8, 4, 4, 2, 2, 1], [8usize, 8, 8, 4, 4, 2, 2]);
+                    adam7_rows_ref(s.w, s.h).iter().map(|&(p, l, pw)| {
+                        let k = p as usize - 1;
+                        let y = y0[k] + l as usize * dy[k];
+                        let bits: Vec<bool> = (0..pw as usize).flat_map(|i| get_px(x0[k] + i * dx[k], y)).collect();
+                        (Some((format!("{:?}", png::Adam7Info::new(p, l, pw)), pw)), pack(&bits))
+                    }).collect()
+                } else {
+                    (0..s.h as usize).map(|y| (None, im.want[y * rb..(y + 1) * rb].to_vec())).collect()
+                };
+                if rows.len() != expected.len() {
+                    why = Some(format!("{} rows handed out, {} expected", rows.len(), expected.len()));
+                } else {
+                    for (i, ((ga, gd), (ea, ed))) in rows.iter().zip(expected.iter()).enumerate() {
+                        let used_bits = match ea { Some((_, pw)) => *pw as usize * bpp, None => s.w as usize * bpp };
+                        if *ga != ea.as_ref().map(|x| x.0.clone()) { why = Some(format!("row {}: interlace info {:?}, expected {:?}", i, ga, ea)); break; }
+                        if gd.len() != ed.len() { why = Some(format!("row {} ({:?}): {} bytes handed out, the scanline has {}", i, ea, gd.len(), ed.len())); break; }
+                        if mask_padding(gd, gd.len(), used_bits) != mask_padding(ed, ed.len(), used_bits) { why = Some(format!("row {} ({:?}): bytes {} differ from the scanline {}", i, ea, hex(gd), hex(ed))); break; }
+                    }
+                }
+            }
+        }
+        if let Some(w) = why {
+            o.violation(viol("row-handed-out-is-not-the-scanline", vec![("image", jstr(&im.name)), ("schedule", jstr(&format!("{:?}", sched))), ("why", jstr(&w)), ("file", jstr(&short(&im.file)))]));
+        }
     }
     if to_model {
         let res = match &got_px {
